@@ -339,5 +339,13 @@ def stepOp (b : SBag) : Op → Option SBag × String
     if den == 0 || num > den then (none, "ok") else
     (some { b with rows := (cleanByQual b.rows b.length.toNat (majQual num den ig iN b.alphabet b.rows b.length.toNat) ends).1 },
      (cleanByQual b.rows b.length.toNat (majQual num den ig iN b.alphabet b.rows b.length.toNat) ends).2)
+  | .replaceRe ok seqs =>
+    -- a regular expression that does not compile is an error and nothing changes; otherwise the `i`-th row takes the
+    -- `i`-th new sequence, names and order stay; in an alignment a replacement that changes the length of a sequence is
+    -- an error after which the content is unspecified
+    if !ok then (some b, "err") else
+    let rows := b.rows.zipIdx.map fun (r, i) => (r.1, seqs.getD i r.2)
+    if b.isAlign && rows.any (fun r => (r.2.length : Int) != b.length) then (none, "err")
+    else (some { b with rows := rows }, "ok")
 
 end Gv.Spec
